@@ -85,6 +85,23 @@ def multi_clause_projects(r, n):
     return out
 
 
+def error_or_answer_projects(r, n):
+    """assignability questions in which one property decides the answer and another makes the engine give up with an error (an
+    operation it does not support): whether the compiler emits code or a diagnostic must not depend on which it meets first"""
+    out = []
+    bad = ["(Record<string, number> & Record<number, number>) | string", "(Record<string, boolean> & Record<number, string>) | number"]
+    for i in range(n):
+        k = r.randrange(2, 6)
+        keys = r.sample(["a", "b", "c", "d", "e", "f", "g", "h", "k", "m", "q", "z"], k)
+        decider, thrower = keys[0], keys[1]
+        fa = ["%s: string" % decider, "%s: %s" % (thrower, r.choice(bad))] + ["%s: boolean" % x for x in keys[2:]]
+        fb = ["%s: number" % decider, "%s: %s" % (thrower, "string")] + ["%s: boolean" % x for x in keys[2:]]
+        r.shuffle(fa); r.shuffle(fb)
+        src = "type A = { %s };\ntype B = { %s };\nexport type T = A extends B ? \"yes\" : \"no\";\nparse.buildParsers<{ T: T }>();" % ("; ".join(fa), "; ".join(fb))
+        out.append([("entry.ts", src)])
+    return out
+
+
 def check(run):
     ok = run.prove("Props.C10", THEOREMS, ["Props/C10.vo"])
     common.ensure_harness()
@@ -104,6 +121,7 @@ def check(run):
     projects += diag_projects(r, 40 if quick else 1500)
     projects += mapped_projects(r, 24 if quick else 900)
     projects += multi_clause_projects(r, 18 if quick else 600)
+    projects += error_or_answer_projects(r, 16 if quick else 400)
     runs = 5 if quick else 8
     jobs, meta = [], []
     for pi, files in enumerate(projects):
